@@ -151,7 +151,7 @@ def run(check):
                   "type, enabled, stop_if, deploy, wait_for, closure timeout, workflow output, foreach items and parallelism), type-adapted so that Prepare accepts "
                   "them; (B) misbehaving plugins (undeclared output id, ill-typed data, nil data, step-fatal and server-fatal errors, dropped connection) at every "
                   "step of 4 shapes and protocol faults at the run-time deployment; oracle: the child process must not die by panic / fatal error (and must not "
-                  "hang); (C) results that appear only because the run is being terminated and reach steps that are being closed; (D) explicit output schemas that do not fit the workflow (missing root object, dangling reference, other types); (F) stage inputs written as plain constants on loop and plugin steps; (E) whole stage inputs (loop items, parallelism, wait_for, closure timeout, stop_if, enabled) that are wait-optional and absent at run time; non-trivial = a fault was injected and the workflow was accepted; distinct = (fault class, position)") % (len(FAULTS), len(POSITIONS))
+                  "hang); (C) results that appear only because the run is being terminated and reach steps that are being closed; (D) explicit output schemas that do not fit the workflow (missing root object, dangling reference, other types); (G) a step closed while its input is being handed over (delay at the hand-over point); (F) stage inputs written as plain constants on loop and plugin steps; (E) whole stage inputs (loop items, parallelism, wait_for, closure timeout, stop_if, enabled) that are wait-optional and absent at run time; non-trivial = a fault was injected and the workflow was accepted; distinct = (fault class, position)") % (len(FAULTS), len(POSITIONS))
     check.assumptions = ["workflow inputs are schema-valid", "a rejected workflow is not a violation but is counted (coverage lost)"]
     gs = []
     for (fclass, ftype, fexpr, ov) in FAULTS:
@@ -196,7 +196,7 @@ def run(check):
         scripts["h"]["exec"] = {"outcome": "hang", "on_cancel": on_cancel}
         gs.append({"program": prog, "scripts": scripts, "input": gen.base_input(rng), "shape": "late-result/%s/%s/%s" % (ending, on_cancel, "+".join(sorted(kinds))), "outcome": {},
                    "fault": ("result-produced-by-termination", "%s %s" % (on_cancel, "+".join(sorted(kinds))))})
-    # (F) stage inputs written as plain constants on loop and plugin steps; (E) whole stage inputs that are absent at run time: a wait-optional value for a loop's items / parallelism or a step's
+    # (G) a step closed while its input is being handed over (delay at the hand-over point); (F) stage inputs written as plain constants on loop and plugin steps; (E) whole stage inputs that are absent at run time: a wait-optional value for a loop's items / parallelism or a step's
     # wait_for / closure timeout whose source is disabled or fails, so nothing is there when the stage is due
     for src_outcome in ("disabled", "error", "crash", "success"):
         for pos in ("items", "parallelism", "wait_for", "closure_wait_timeout", "stop_if", "enabled"):
@@ -229,6 +229,24 @@ def run(check):
             scripts = gen.make_scripts(steps, {"g": src_outcome} if src_outcome in ("error", "crash") else {})
             gs.append({"program": prog, "scripts": scripts, "input": {"tag": "T1", "items": [{"tag": "i0"}, {"tag": "i1"}]}, "shape": "absent-stage-input/%s/source-%s" % (pos, src_outcome), "outcome": {},
                        "fault": ("absent-stage-input", "%s source %s" % (pos, src_outcome))})
+    # (G) the run ends on a step's output in the very delivery round in which a loop (or another step) is handed its input, and
+    # that hand-over takes a moment: the step is closed while its input is on the way
+    for rep in range(check.pick(300, 1500)):
+        rng = random.Random(derive_seed(check.seed, "c07-handover", rep))
+        q = gen.plugin_step("q", Expr(In("tag")))
+        kind = rng.choice(["loop", "loop", "loop", "plugin"])
+        if kind == "loop":
+            sub = gen.sub_program("sub.yaml", 1)
+            other = Step("loop", "foreach", sub=sub, items=[{"tag": gen.tagref("q")}, {"tag": "k"}], parallelism=rng.choice([1, 2]))
+            point = "fe:runningStep.ProvideStageInput:send#1"
+        else:
+            other = gen.plugin_step("p", gen.tagref("q"))
+            point = rng.choice(["pl:runningStep.ProvideStageInput:lock#1", "pl:runningStep.provideStartingInput:send#1"])
+        steps = [q, other]
+        rng.shuffle(steps)
+        prog = Program(steps, {"success": {"q": gen.tagref("q")}}, gen.BASE_INPUT)
+        gs.append({"program": prog, "scripts": gen.make_scripts(steps, {}), "input": gen.base_input(rng), "shape": "input-handed-over-while-closing/%s@%s" % (kind, point), "outcome": {},
+                   "fault": ("input-handed-over-while-closing", kind), "plan": {"sites": [{"point": point, "hit": h, "ms": 40} for h in (1, 2, 3)], "record": True}})
     # (F) constants where expressions are usual: `enabled`, `parallelism`, `closure_wait_timeout`, `stop_if` written as plain YAML
     # values on loop and plugin steps (constants reach the providers as text)
     for kind in ("foreach", "plugin"):
@@ -277,6 +295,8 @@ def run(check):
     for i, g in enumerate(gs):
         prog = g["program"]
         case = {"id": "c07-%05d" % i, "files": prog.files(), "scripts": g["scripts"], "runs": [{"input": g["input"]}]}
+        if g.get("plan"):
+            case["plan"], case["plan_scope"] = g["plan"], "execute"
         items.append((case, None, g))
     stats = {"accepted": 0, "rejected": 0, "returned_error": 0, "returned_output": 0, "crashes": 0, "rejected_classes": {}}
     with harness.Runner() as rn:
